@@ -286,6 +286,9 @@ func init() {
 			jsonIndentSweep(c)
 			genericSweep(c)
 		}
+		if c.ReplayInput() == nil || c.ReplayInput()["diff"] != nil {
+			diffSweep(c)
+		}
 	})
 }
 
